@@ -184,13 +184,17 @@ impl<I: Interner> RenderAsRust<I> for FnPointer<I> {
                     .format(", ")
             )?;
         }
+        if let Safety::Unsafe = self.sig.safety {
+            write!(f, "unsafe ")?;
+        }
         let parameters = self.substitution.0.as_slice(interner);
         write!(
             f,
             "fn({}) -> {}",
             parameters[..parameters.len() - 1]
                 .iter()
-                .map(|param| param.display(s))
+                .map(|param| param.display(s).to_string())
+                .chain(self.sig.variadic.then(|| "...".to_owned()))
                 .format(", "),
             parameters[parameters.len() - 1].display(s),
         )
